@@ -88,6 +88,19 @@ def gen_instance(rng, iid, family='random', nmax_geos=6):
     # many geos that must be in one of the two groups: forced control groups larger than admissible sizes
     elig = [rng.choice(['ct', 'ct', 'ctx', 'ctx', 'c', 'cx']) for _ in range(n)]
     default_elig = False
+  if family == 'c13vol' and n >= 3:
+    # a volume tolerance while a sizeable geo is not admitted to the search (exclude-only or not in the table)
+    tot = sorted(range(1, n + 1), key=lambda g: -sum(v for (gg, _), v in cells.items() if gg == g))
+    elig = [rng.choice(['ctx', 'ctx', 'ctx', 'cx', 'tx']) for _ in range(n)]
+    elig[tot[rng.choice([0, 1])] - 1] = rng.choice(['x', 'absent'])
+    default_elig = False
+  if family == 'c13ratio' and n >= 4:
+    # a geo-ratio tolerance together with a minimum control size of two (range or two control-fixed geos)
+    elig = [rng.choice(['ctx', 'ctx', 'ctx', 'cx', 'tx']) for _ in range(n)]
+    if rng.random() < 0.5:
+      a, b = rng.sample(range(n), 2)
+      elig[a] = elig[b] = 'c'
+    default_elig = False
   if family == 'truncate' and n >= 3:
     # n_geos_max binds and the geos that may not be excluded are the SMALL ones (lowest impact)
     tot = sorted(range(1, n + 1), key=lambda g: sum(v for (gg, _), v in cells.items() if gg == g))
@@ -157,6 +170,17 @@ def gen_instance(rng, iid, family='random', nmax_geos=6):
     want_budget = True
     share = (0, 0, 0, 0)
     nmax = 0
+  if family == 'c13vol':
+    vtol = rng.choice([(1, 4), (1, 2), (1, 1), (1, 10)])
+    share = (0, 0, 0, 0)
+    want_budget = False
+    nmax = 0
+  if family == 'c13ratio' and n >= 4:
+    gtol = rng.choice([(1, 2), (1, 1), (1, 4)])
+    if 'c' not in elig:
+      cr = (2, rng.randint(2, n))
+    share = (0, 0, 0, 0)
+    want_budget = False
   if family == 'truncate' and n >= 3:
     nmax = rng.randint(2, n - 1)
     share = (0, 0, 0, 0)
@@ -662,7 +686,7 @@ FAMILIES = {
     'C03': [('random', 0.45), ('constraints', 0.45), ('cancel', 0.1)],
     'C04': [('random', 0.6), ('constraints', 0.4)],
     'C09': [('degenerate', 0.45), ('tiny', 0.25), ('constraints', 0.3)],
-    'C13': [('random', 0.6), ('constraints', 0.4)],
+    'C13': [('random', 0.45), ('constraints', 0.3), ('c13vol', 0.12), ('c13ratio', 0.13)],
     'C14': [('random', 0.7), ('constraints', 0.3)],
     'C11': [('random', 0.5), ('constraints', 0.5)],
 }
